@@ -273,7 +273,7 @@ def unhx(h):
     return bytes.fromhex(h)
 
 
-def run_sharded(binary, script_lines, workdir, tag, nshards=NCPU, timeout=1500, env=None, extra_args=()):
+def run_sharded(binary, script_lines, workdir, tag, nshards=NCPU, timeout=1500, env=None, extra_args=(), hang_is_outcome=False):
     """Run `binary <shard> <out>` over shards of the script in parallel; returns list of output lines."""
     os.makedirs(workdir, exist_ok=True)
     n = len(script_lines)
@@ -295,18 +295,53 @@ def run_sharded(binary, script_lines, workdir, tag, nshards=NCPU, timeout=1500, 
                     e[k] = v
         p = subprocess.Popen([binary, inp, outp] + list(extra_args), stdout=subprocess.DEVNULL, stderr=subprocess.PIPE, env=e)
         procs.append((p, outp, len(part), inp))
+    # wait for the shards; a shard of the implementation that is still running long after all the others have finished is a hang of the code
+    # under test at its next line (reported as such, with the lines after it marked not run), not a failure of the machinery
+    t0 = time.time()
+    done_at = {}
+    errs = {}
+    hung = set()
+    while len(done_at) + len(hung) < len(procs):
+        for i, (p, outp, cnt, inp) in enumerate(procs):
+            if i in done_at or i in hung:
+                continue
+            if p.poll() is not None:
+                done_at[i] = time.time() - t0
+                try:
+                    errs[i] = p.stderr.read() if p.stderr else b""
+                except Exception:
+                    errs[i] = b""
+        running = [i for i in range(len(procs)) if i not in done_at and i not in hung]
+        if not running:
+            break
+        el = time.time() - t0
+        if el > timeout:
+            if not hang_is_outcome:
+                for i in running:
+                    procs[i][0].kill()
+                raise CheckError("%s timed out on %s" % (binary, procs[running[0]][3]))
+            for i in running:
+                procs[i][0].kill(); hung.add(i)
+            break
+        if hang_is_outcome and done_at and len(done_at) >= max(1, len(procs) // 2):
+            longest = max(done_at.values())
+            if el > max(120.0, 8.0 * longest + 60.0):
+                for i in running:
+                    procs[i][0].kill(); hung.add(i)
+                break
+        time.sleep(0.05)
     outs = []
-    for p, outp, cnt, inp in procs:
-        try:
-            _, err = p.communicate(timeout=timeout)
-        except subprocess.TimeoutExpired:
-            p.kill()
-            raise CheckError("%s timed out on %s" % (binary, inp))
+    for i, (p, outp, cnt, inp) in enumerate(procs):
         lines = open(outp, encoding="utf-8", errors="replace").read().split("\n") if os.path.exists(outp) else []
         if lines and lines[-1] == "":
             lines.pop()
-        if p.returncode != 0 or len(lines) != cnt:
-            # a crash (abort/hang kill) of the whole batch: report the line where it stopped
+        if i in hung:
+            lines = lines[:cnt]
+            if len(lines) < cnt:
+                lines = lines + ["HANG"] + ["NOTRUN-AFTER-HANG"] * (cnt - len(lines) - 1)
+        elif p.returncode != 0 or len(lines) != cnt:
+            # a crash (abort) of the whole batch: report the line where it stopped
+            err = errs.get(i, b"")
             lines = lines + ["CRASH rc=%s %s" % (p.returncode, (err or b"")[-200:].decode(errors="replace").replace("\n", " "))] * (cnt - len(lines))
         outs.extend(lines)
     return outs
